@@ -86,7 +86,8 @@ def run_target(kb, t, obj, workdir, trace=True):
         return res
     gi = ["goto-instrument", "--dfcc", t.harness]
     if t.enforce:
-        gi += ["--enforce-contract", t.fn]
+        # a self-recursive function is checked with its own recursive calls replaced by its contract
+        gi += ["--enforce-contract-rec" if getattr(t, "rec", False) else "--enforce-contract", t.fn]
     for r in t.replace:
         gi += ["--replace-call-with-contract", r]
     if t.loops:
